@@ -18,10 +18,13 @@ struct Tracker {
     wakes_on_dead: AtomicUsize,              // wake / wake_by_ref issued while no reference was alive
     over_release: AtomicUsize,               // wake (by value) / drop issued while no reference was alive
 }
-unsafe fn t_clone(p: *const ()) -> std::task::RawWaker { (*(p as *const Tracker)).live.fetch_add(1, SeqCst); std::task::RawWaker::new(p, &T_VTABLE) }
-unsafe fn t_wake(p: *const ()) { let t = &*(p as *const Tracker); if t.live.load(SeqCst) <= 0 { t.wakes_on_dead.fetch_add(1, SeqCst); } t.wakes.fetch_add(1, SeqCst); if t.live.fetch_sub(1, SeqCst) <= 0 { t.over_release.fetch_add(1, SeqCst); } }
-unsafe fn t_wake_by_ref(p: *const ()) { let t = &*(p as *const Tracker); if t.live.load(SeqCst) <= 0 { t.wakes_on_dead.fetch_add(1, SeqCst); } t.wakes.fetch_add(1, SeqCst); }
-unsafe fn t_drop(p: *const ()) { let t = &*(p as *const Tracker); if t.live.fetch_sub(1, SeqCst) <= 0 { t.over_release.fetch_add(1, SeqCst); } }
+/// a caller whose RawWaker carries a NULL data pointer keeps its state in a static (hand-written single-task executors do): the tracker is then found here
+static NULL_DATA_TRACKER: std::sync::atomic::AtomicPtr<Tracker> = std::sync::atomic::AtomicPtr::new(std::ptr::null_mut());
+unsafe fn tr<'a>(p: *const ()) -> &'a Tracker { if p.is_null() { &*NULL_DATA_TRACKER.load(SeqCst) } else { &*(p as *const Tracker) } }
+unsafe fn t_clone(p: *const ()) -> std::task::RawWaker { tr(p).live.fetch_add(1, SeqCst); std::task::RawWaker::new(p, &T_VTABLE) }
+unsafe fn t_wake(p: *const ()) { let t = tr(p); if t.live.load(SeqCst) <= 0 { t.wakes_on_dead.fetch_add(1, SeqCst); } t.wakes.fetch_add(1, SeqCst); if t.live.fetch_sub(1, SeqCst) <= 0 { t.over_release.fetch_add(1, SeqCst); } }
+unsafe fn t_wake_by_ref(p: *const ()) { let t = tr(p); if t.live.load(SeqCst) <= 0 { t.wakes_on_dead.fetch_add(1, SeqCst); } t.wakes.fetch_add(1, SeqCst); }
+unsafe fn t_drop(p: *const ()) { let t = tr(p); if t.live.fetch_sub(1, SeqCst) <= 0 { t.over_release.fetch_add(1, SeqCst); } }
 static T_VTABLE: std::task::RawWakerVTable = std::task::RawWakerVTable::new(t_clone, t_wake, t_wake_by_ref, t_drop);
 
 struct Shared {
@@ -79,9 +82,14 @@ impl Future for Scripted {
     }
 }
 
-pub fn run(_params: &[i64], ops: &Rows, mon: &mut Mon) -> Rows {
-    go(ops, 0, mon)
+/// params: [1 = the caller's RawWaker has a NULL data pointer (its state lives in a static)]
+pub fn run(params: &[i64], ops: &Rows, mon: &mut Mon) -> Rows {
+    NULL_DATA.store(params.get(0).copied().unwrap_or(0) == 1, SeqCst);
+    let r = go(ops, 0, mon);
+    NULL_DATA.store(false, SeqCst);
+    r
 }
+static NULL_DATA: std::sync::atomic::AtomicBool = std::sync::atomic::AtomicBool::new(false);
 
 /// C19, concurrent part: '119 <threads> | history' — the history runs as usual (wakers obtained inside polls of the opaque future and retained);
 /// then every thread receives a clone of each retained waker (same slot numbers) and replays, concurrently with the others, the clone / wake /
@@ -93,7 +101,9 @@ pub fn run_threads(params: &[i64], ops: &Rows, mon: &mut Mon) -> Rows {
 
 fn go(ops: &Rows, threads: usize, mon: &mut Mon) -> Rows {
     let cw = Arc::new(Tracker { live: std::sync::atomic::AtomicI64::new(1), wakes: AtomicUsize::new(0), wakes_on_dead: AtomicUsize::new(0), over_release: AtomicUsize::new(0) });
-    let mut orig: Option<Waker> = Some(unsafe { Waker::from_raw(std::task::RawWaker::new(Arc::as_ptr(&cw) as *const (), &T_VTABLE)) });
+    let null_data = NULL_DATA.load(SeqCst);
+    if null_data { NULL_DATA_TRACKER.store(Arc::as_ptr(&cw) as *mut Tracker, SeqCst); }
+    let mut orig: Option<Waker> = Some(unsafe { Waker::from_raw(std::task::RawWaker::new(if null_data { std::ptr::null() } else { Arc::as_ptr(&cw) as *const () }, &T_VTABLE)) });
     let sh = Arc::new(Mutex::new(Shared { ops: ops.clone(), pos: 0, pool: Vec::new(), rows: Vec::new(), cw: cw.clone(), base: 1 }));
     let fut = Scripted(sh.clone());
     let mut obj = trait_obj!(fut as Future);
